@@ -105,6 +105,10 @@ def fault_specs(tier):
         if s != "S3":
             out.append((s, "store-raises", "final"))
         out.append((s, "prep-task-fails", 0))
+        # a track plugin calls sys.exit() while the preparation tasks are collected (SystemExit is not an Exception)
+        out.append((s, "prep-exits", 0))
+        # the driver's metrics store fails when it is closed after the last step (it only persists on close)
+        out.append((s, "store-close-raises", 0))
         out.append((s, "worker-dies", 0))
         out.append((s, "cancel", 0))
     # the driver's metrics store fails during the *periodic* post-processing (the load generators keep running), and the user cancels:
@@ -117,6 +121,8 @@ def fault_specs(tier):
         for n in (0, 7, "final"):
             out.append((s, "store-raises@rc", n))
         out.append((s, "prep-task-fails@rc", 0))
+        out.append((s, "prep-exits@rc", 0))
+        out.append((s, "store-close-raises@rc", 0))
         out.append((s, "worker-dies@rc", 0))
         out.append((s, "cancel@rc", 0))
     for n in range(0, 4):
@@ -314,6 +320,14 @@ class FailingProcessor:
         return [(fine, {}), (boom, {})]
 
 
+class ExitingProcessor:
+    def on_after_load_track(self, track):
+        return track
+
+    def on_prepare_track(self, track, data_root_dir):
+        raise SystemExit(3)
+
+
 class _YappiStandIn:
     """what esrally.driver.driver.AsyncProfiler uses of yappi"""
 
@@ -456,7 +470,19 @@ def check_race(spec, ch, res):
             return orig_put(self, *a, **k)
 
         m.InMemoryMetricsStore.put_value_cluster_level = failing_put
-    hook = (lambda register: register(FailingProcessor())) if kind == "prep-task-fails" else None
+    hook = (lambda register: register(FailingProcessor())) if kind == "prep-task-fails" else ((lambda register: register(ExitingProcessor())) if kind == "prep-exits" else None)
+    had_close = "close" in m.InMemoryMetricsStore.__dict__
+    orig_close = m.InMemoryMetricsStore.close
+    if kind == "store-close-raises":
+
+        def failing_close(self, *a, **k):
+            sim = s.get("sim")
+            if sim is not None and sim.current_actor is not None and sim.actors[sim.current_actor].cls.__name__ == "DriverActor" and state["fault_time"] is None:
+                state["fault_time"] = CLOCK.now
+                raise RuntimeError("injected metrics store failure on close")
+            return orig_close(self, *a, **k)
+
+        m.InMemoryMetricsStore.close = failing_close
     del loadgen.FIRED[:]
     import sys
 
@@ -471,6 +497,11 @@ def check_race(spec, ch, res):
     finally:
         m.InMemoryMetricsStore.put_value_cluster_level = orig_put
         m.InMemoryMetricsStore.bulk_add = orig_bulk_add
+        if kind == "store-close-raises":
+            if had_close:
+                m.InMemoryMetricsStore.close = orig_close
+            else:
+                del m.InMemoryMetricsStore.close
         if prof:
             if real_yappi is not None:
                 sys.modules["yappi"] = real_yappi
@@ -480,7 +511,7 @@ def check_race(spec, ch, res):
     names = [n for _t, n, _m in r.received]
     v = None
     ft = state["fault_time"]
-    if kind == "prep-task-fails" and ft is None:
+    if kind in ("prep-task-fails", "prep-exits") and ft is None:
         ft = 0.0
     fired = [f for f in loadgen.FIRED if f[0] == {"unsuccessful-abort": "unsuccessful"}.get(kind, kind)]
     if kind in ("runner-raises", "unsuccessful-abort", "source-raises") and ft is None and fired:
